@@ -36,6 +36,15 @@ pub open spec fn pat_tts(p: Seq<PatElem>, i: int) -> int
     if i < 0 || i >= p.len() { 0 } else { elem_tts(p[i]) + pat_tts(p, i + 1) }
 }
 
+/// A4 says element k of a pattern peeks at token-tree offset k (peek / peek2 / peek3).  That inspects exactly the token
+/// trees the row erases only if every element but the last is ONE token tree wide; a compound token (`Token![<<]`) in
+/// front of another element would make the next element look INTO it (`<<` + anything would match `<<<`)
+pub open spec fn pat_no_overlap(p: Seq<PatElem>, i: int) -> bool
+    decreases p.len() - i
+{
+    if i < 0 || i >= p.len() - 1 { true } else { elem_tts(p[i]) == 1 && pat_no_overlap(p, i + 1) }
+}
+
 pub open spec fn doc_lookup(d: Seq<DocRow>, s: Seq<char>, i: int) -> Option<DocMeaning>
     decreases d.len() - i
 {
@@ -53,6 +62,7 @@ pub open spec fn det_row_ok(r: DetRow) -> bool {
             doc_lookup(doc_ops(), pat_chars(r.pat, 0), 0) == Some(m)
                 && unit_parser_table(pt.0) == doc_arity(m)
                 && r.len == pat_tts(r.pat, 0)
+                && pat_no_overlap(r.pat, 0)
         }
     }
 }
@@ -84,6 +94,8 @@ pub open spec fn special_rows_ok() -> bool {
     &&& det_table_deferred_determiner().len == pat_tts(det_table_deferred_determiner().pat, 0)
     &&& pat_chars(det_table_wrapper_determiner().pat, 0) =~= seq!['>', '>', '>']
     &&& det_table_wrapper_determiner().len == pat_tts(det_table_wrapper_determiner().pat, 0)
+    &&& pat_no_overlap(det_table_wrapper_determiner().pat, 0)
+    &&& pat_no_overlap(det_table_deferred_determiner().pat, 0)
 }
 
 pub open spec fn operator_tables_agree() -> bool {
